@@ -63,6 +63,10 @@ GP.build("C01", "Every agent message is answered exactly once",
            "when no task can run, every connection that awaits an answer has exactly one handler, and it is parked at one of the three barriers with its wait not released"),
           ("C01_idle_unmet", "idle_barriers_unmet",
            "and that barrier is genuinely unmet (no lost wake-up): in every reachable idle state a handler held at the end barrier coexists with an agent that has not finished, one held at the reset barrier with an agent that has not asked, one held at the start barrier with a clear start event - what is unanswered waits for other players, never for the server"),
+          ("C01_progress", "mu_decreases",
+           "progress: the measure `mu` (Proofs/CoordMeasure.v: weighted count of unread input, queued messages, handler tasks by wait state, queued responses and pending task events) strictly decreases with EVERY task step, from every state satisfying the invariant"),
+          ("C01_no_livelock", "bounded_internal_runs_reachable",
+           "so from every reachable state at most `mu s` task steps can happen before the coordinator is idle again or new input arrives: an answer whose barrier is met is delivered after finitely many steps (with C01_quiescent / C01_idle_unmet: at rest, nothing is unanswered except behind an unmet barrier)"),
           ("C01_parked_have_agents", "parked_have_agents_reachable", "a handler parked at a barrier always belongs to a registered agent (its continuation cannot fail)"),
           ("C01_garbage_answered", "reject_garbage", "an unparsable message is answered with BAD_REQUEST by the dispatcher"),
           ("C01_dispatcher_alive", "dispatcher_alive", "the dispatcher can always take the next message")],
@@ -82,13 +86,16 @@ GP.build("C09", "Bad or out-of-order messages are rejected without any effect on
          [("C09_garbage", "reject_garbage", "garbage: BAD_REQUEST from the dispatcher; agents, world, events, trajectory files, handlers and all other connections unchanged"),
           ("C09_reject", "reject_bad_request", "every other bad request: its handler answers BAD_REQUEST ..."),
           ("C09_frame", "respond_frame", "... and answering changes nothing but the sender's response queue and the finished handler"),
+          ("C09_others", "h_start_others", "whatever the message, the handler working for address c0 leaves the record of every other agent untouched"),
+          ("C09_world", "h_start_world_frame", "and only game actions and joins can touch the world or the trajectory files"),
           ("C09_alive", "dispatcher_alive", "the dispatcher keeps serving"),
           ("C09_no_replay", "no_replay", "the handler spawned for a message executes the content of that very message (no dispatcher-local state survives)")],
          example=EX % "C09")
 
 GP.build("C10", "An agent may leave at any moment without harming the others",
          "   Departures observed by the server (EOF, read error, undecodable bytes, write error) forward QuitGame\n   (conn_read / conn_run: `leave`); the quit handler then removes the agent.",
-         [("C10_forget", "quit_effect", "after the quit handler the address is in no per-agent table; every other agent's record (view, steps, status, reward, trajectory) is exactly as before; world and files unchanged"),
+         [("C10_others", "label_touches_one", "every label except the two background tasks leaves the records of all agents but (at most) one exactly as they are: a departure, a fault or a bad message of one agent never touches another agent's view, counters, status, reward or trajectory"),
+          ("C10_forget", "quit_effect", "after the quit handler the address is in no per-agent table; every other agent's record (view, steps, status, reward, trajectory) is exactly as before; world and files unchanged"),
           ("C10_slot", "cleanup_releases", "the connection's slot is released exactly once"),
           ("C10_count", "served_reachable", "so the counter always equals the number of live connections"),
           ("C10_tokens", "tokens_reachable", "a closed connection leaves nothing behind but the QuitGame forwarded on its behalf"),
@@ -131,6 +138,7 @@ GP.build("C06", "Start and end-of-episode barriers hold for all agents",
           ("C06_unmet", "idle_barriers_unmet", "no lost wake-up, for all three barriers: in every reachable idle state an unreleased wait is held by a barrier that is genuinely unmet (somebody has not finished / has not asked / the start event is clear)"),
           ("C06_invariant", "K_reachable", "the invariant behind it, for every reachable state, idle or not: an unreleased end wait => somebody has not finished or the reward task is pending; an unreleased reset wait => somebody has not asked or the reset task is pending; an unreleased start wait => start event clear; start event set => at least the required number of players in the game"),
           ("C06_start", "started_enough_players", "the start event is set only while at least the required number of players is in the game"),
+          ("C06_progress", "bounded_internal_runs_reachable", "released waits are delivered: every run of task steps is bounded by the measure, and in the idle state that follows no released wait is left (C01_quiescent)"),
           ("C06_parked_final", "parked_view_reachable", "in every reachable state a handler held at the end-of-episode barrier belongs to an agent whose episode has ended, and the view it will report is exactly the stored one (final observations only are held back)")],
          example=EX % "C06")
 
